@@ -234,6 +234,9 @@ func configIntact(c *caseT, js []byte) bool {
 }
 
 var cleanURLs = []string{"https://example.com/docs", "https://auth.example.com/token", "/relative", "http://localhost:8080"}
+
+// server urls: some with a path of their own (`/api`, `/v1`) — route paths stay as they are whatever the servers say
+var serverURLs = []string{"https://example.com/docs", "http://localhost:8080", "/relative", "https://api.example.com/api", "https://eu.example.com/api", "/api", "https://example.com/v1", "/v1"}
 var oddURLs = []string{"https://{tenant}.example.com/docs", `C:\docs\api`, "not a url", "https://example.com/a b"}
 var cleanMails = []string{"support@example.com", ""}
 var oddMails = []string{"Ada Lovelace <ada@example.com>", "support at example.com"}
@@ -278,7 +281,7 @@ func genCfg(r *hx.Rand, v31 bool) *cfgT {
 		g.ExtDocs = &[2]string{u(), hx.Pick(r, []string{"", "more"})}
 	}
 	for i, n := 0, r.Intn(3); i < n; i++ {
-		g.Servers = append(g.Servers, [2]string{hx.Pick(r, cleanURLs), hx.Pick(r, []string{"", "prod"})})
+		g.Servers = append(g.Servers, [2]string{hx.Pick(r, serverURLs), hx.Pick(r, []string{"", "prod"})})
 	}
 	for i, n := 0, r.Intn(3); i < n; i++ {
 		g.TagDefs = append(g.TagDefs, [2]string{hx.Pick(r, []string{"users", "admin", "orders"}) + strconv.Itoa(i), hx.Pick(r, []string{"", "d"})})
